@@ -18,8 +18,8 @@
 From Coq Require Import List NArith ZArith Bool.
 Import ListNotations.
 From Verif.lib Require Import Term.
-From Verif.model Require Import CatchpointHash CatchpointHashSpec CatchpointHashCheck MerkleTrieSha.
-From Verif.proofs Require Import CatchpointHashProofs CatchpointHashEncProofs CatchpointHashCheckProofs.
+From Verif.model Require Import CatchpointHash CatchpointHashSpec CatchpointHashCheck CatchpointMemo MerkleTrieSha.
+From Verif.proofs Require Import CatchpointHashProofs CatchpointHashEncProofs CatchpointHashCheckProofs CatchpointMemoProofs.
 Open Scope N_scope.
 
 (* ---- leaves: accounts ---- *)
@@ -222,6 +222,59 @@ Theorem C15_check_viol_sound : forall H e1 e2 o1 o2 same d,
   leaf_collision H (prehash_of e1) (prehash_of e2).
 Proof. exact check_leafpair_viol_sound. Qed.
 Print Assumptions C15_check_viol_sound.
+
+(* ---- the label is a function of the state, not of the catchpoint-tracking history ----
+   model/CatchpointMemo.v: node starts with tracking on/off (initializeHashes: reset when
+   hashRound <> dbRound, rebuild when the trie is empty, adopt otherwise) and tracker commits
+   (commitRound: trie updated and hashRound := dbRound+k when tracking, trie untouched and
+   hashRound := 0 otherwise).  For EVERY history: while tracking is on, the persisted trie is the
+   set of leaves of the current account tables.  [apply_ok] is C14's statement about
+   accountsUpdateBalances. *)
+Theorem C15_memo_inv :
+  forall (T S D : Type) (leaves : T -> S) (empty : S) (is_empty : S -> bool)
+         (apply_tab : T -> D -> T) (apply_trie : S -> T -> D -> S),
+  (forall t d, apply_trie (leaves t) t d = leaves (apply_tab t d)) ->
+  is_empty empty = true ->
+  forall ops g,
+    memo_ok T S leaves empty (mrun T S D leaves empty is_empty apply_tab apply_trie ops (mfresh T S empty g)).
+Proof. exact memo_inv. Qed.
+Print Assumptions C15_memo_inv.
+
+Theorem C15_memo_trie_state_only :
+  forall (T S D : Type) (leaves : T -> S) (empty : S) (is_empty : S -> bool)
+         (apply_tab : T -> D -> T) (apply_trie : S -> T -> D -> S),
+  (forall t d, apply_trie (leaves t) t d = leaves (apply_tab t d)) ->
+  is_empty empty = true ->
+  forall ops g,
+    let s := mrun T S D leaves empty is_empty apply_tab apply_trie ops (mfresh T S empty g) in
+    m_on s = true -> m_trie s = leaves (m_tab s).
+Proof. exact memo_trie_state_only. Qed.
+Print Assumptions C15_memo_trie_state_only.
+
+(* re-enabling tracking after any history (in particular on -> off with diverging writes -> on) *)
+Theorem C15_memo_reenable :
+  forall (T S D : Type) (leaves : T -> S) (empty : S) (is_empty : S -> bool)
+         (apply_tab : T -> D -> T) (apply_trie : S -> T -> D -> S),
+  (forall t d, apply_trie (leaves t) t d = leaves (apply_tab t d)) ->
+  is_empty empty = true ->
+  forall ops g,
+    let s := mrun T S D leaves empty is_empty apply_tab apply_trie (ops ++ [Restart true]) (mfresh T S empty g) in
+    m_trie s = leaves (m_tab s) /\ m_hash s = m_db s.
+Proof. exact memo_reenable. Qed.
+Print Assumptions C15_memo_reenable.
+
+(* the checker's instance: a tracking node's trie is current after every history ... *)
+Theorem C15_memo_check_current : forall ops,
+  let s := fold_left (x_step false) ops x_fresh in m_on s = true -> x_current s = true.
+Proof. exact x_memo_current. Qed.
+Print Assumptions C15_memo_check_current.
+
+(* ... and this rests on the reset of the hash round by the commits of a non-tracking node: if
+   those kept advancing it, the history on, commit, off, commit, on adopts a stale trie *)
+Theorem C15_memo_reset_needed :
+  exists ops, let s := fold_left (x_step true) ops x_fresh in m_on s = true /\ x_current s = false.
+Proof. exact memo_reset_needed. Qed.
+Print Assumptions C15_memo_reset_needed.
 
 (* ---- non-vacuity ---- *)
 (* the model, run with SHA-512/256, yields exactly the 36-byte leaf the real KvHashBuilderV6
